@@ -6,7 +6,7 @@
    assigns one word per property ([vals]); [encode_record] / [encode_vertices_*] / [enc_face_*] are the reference
    encoder of the specification's grammar (ascii tokens, little- and big-endian bytes).  The reader model is
    [read_vertices_bin/ascii] with the built readers [bs], [faces_bin], [parse_header]. *)
-From PF Require Import Base.Bytes Formats.PlyRead Formats.PlyReadSpec Formats.PlyReadProofs.
+From PF Require Import Base.Bytes Formats.PlyRead Formats.PlyReadSpec Formats.PlyReadProofs Formats.PlyReadMesh.
 From Coq Require Import String.
 Open Scope list_scope.
 Open Scope N_scope.
@@ -213,6 +213,54 @@ Theorem alias_lines_agree : Forall (fun p => forall name st,
     (forall ct, hstep ["property"; "list"; ct; fst p; name] st = hstep ["property"; "list"; ct; snd p; name] st))%string alias_pairs.
 Proof. exact alias_lines_agree_proof. Qed.
 Print Assumptions alias_lines_agree.
+
+(* ---- whole files ---- *)
+
+(* the reader's group construction and describe's formulation accept the same groups with the same type:
+   [vec_reader] (every member declared with the type of the first DECLARED member — what build_vec computes, see
+   [groups_become_attributes]) against [group_cols] (every member present with the type of the first MEMBER — what
+   [describe] uses) *)
+Theorem groups_equal_describe : forall bin attr ms (ps : vprops), NoDup (names ps) -> ms <> [] ->
+  (forall b, vec_reader bin attr ms ps = Some b -> exists cols, group_cols ms ps = Some (cols, b_ty b)) /\
+  (forall cols t, group_cols ms ps = Some (cols, t) -> exists b, vec_reader bin attr ms ps = Some b /\ b_ty b = t).
+Proof. exact vec_reader_iff_group_cols. Qed.
+Print Assumptions groups_equal_describe.
+
+(* every reader MeshReader.Read builds (group readers, colour fallback, LoadUnspecifiedProperties) stands, in order,
+   against one entry of describe's attribute list: same attribute name, same dimension, same claimed properties, and
+   on the encoding of every record the reader returns exactly the values describe assigns.  [raw_free] excludes, for
+   ascii files only, uchar properties read through a Vector1 reader (known finding ply:ascii-uchar-scalar-raw). *)
+Theorem readers_agree_with_describe : forall f gs (ps : vprops),
+  NoDup (names ps) -> supported ps -> wf_groups gs -> Forall (raw_free f) (spec_entries gs ps) ->
+  exists bs, build_readers (is_bin f) gs true (scalars ps) = Ok bs /\ Forall2 (agrees f ps) bs (spec_entries gs ps).
+Proof. exact build_readers_agree. Qed.
+Print Assumptions readers_agree_with_describe.
+
+(* the header parser recovers exactly the declared format, elements and properties (any number, any order, any
+   types, scalar and list) from the canonical header text *)
+Theorem parse_render_header : forall h, Forall elem_good (h_elems h) -> h_comments h = [] ->
+  parse_header (render_header h) = Ok h.
+Proof. exact parse_render_header_proof. Qed.
+Print Assumptions parse_render_header.
+
+(* END TO END, point clouds.  For every abstract file without a face element — any non-empty list of distinctly named
+   uchar/int/float/double properties in any order, any number of records whose values fit their types, ascii /
+   little-endian / big-endian (ascii: no raw uchar scalar, the known finding) — ply.ReadMesh's model applied to the
+   reference encoding returns, without error, exactly the mesh the file describes: point topology, identity indices,
+   every recognised group as its attribute and every other property as a scalar attribute, with the values of record i
+   at vertex i. *)
+Theorem read_mesh_points : forall a, pointcloud_ok a ->
+  read_mesh (encode a) = describe a /\ exists m, describe a = Ok m.
+Proof. exact read_mesh_points_proof. Qed.
+Print Assumptions read_mesh_points.
+
+(* ... and the same with comment, obj_info and blank lines inserted anywhere after the format line *)
+Theorem read_mesh_points_noisy : forall a noisy, pointcloud_ok a ->
+  with_noise (header_body (header_of a)) noisy ->
+  read_mesh {| pf_header := ["ply"%string] :: ["format"%string; fmt_name (a_fmt a); "1.0"%string] :: noisy;
+               pf_body := enc_body a |} = describe a.
+Proof. exact read_mesh_points_noisy_proof. Qed.
+Print Assumptions read_mesh_points_noisy.
 
 (* ---- non-vacuity: a big-endian file with a double before the position, colour bytes, a quad and a triangle ---- *)
 Example c08_example :
